@@ -461,44 +461,132 @@ def _forget_by_scan(ck, R, cm, ff, sw, sep):
           "forget_function does not filter %s" % sorted(need - slots), ff.where())
 
 
+def _of_slot(fa: FA, e, slot, at=None) -> bool:
+    """does the container expression `e` denote (something taken out of) self.<slot>: named directly, inside a call chain
+    (`self.idx.setdefault(q, set())`), or through a temporary"""
+    if e is None:
+        return False
+    if any(self_attr(x, slot) for x in ast.walk(e)):
+        return True
+    try:
+        return bool(fa.nodes(at if at is not None else e)) and ("attr:self." + slot) in fa.deps(e)
+    except AnalysisError:
+        return False
+
+
+def _key_events(fa: FA, slot, ktxt, kinds):
+    """CFG nodes of `fa` at which the key whose expanded text is `ktxt` is entered into (`kinds`='add') / taken out of
+    (`kinds`='remove') the table self.<slot> or an inner collection taken out of it"""
+    names = ("add", "append", "__setitem__") if kinds == "add" else ("pop", "discard", "remove", "__delitem__")
+    out = []
+    for c in fa.calls():
+        if A.call_attr(c) in names and c.args and fa.nodes(c) and _of_slot(fa, A.call_recv(c), slot, c) and _xt(fa, c.args[0], c) == ktxt and fa.unconditional(c):
+            out += fa.nodes(c)
+    if kinds == "add":
+        for st in fa.stmts(ast.Assign):
+            if any(isinstance(t, ast.Subscript) and _of_slot(fa, t.value, slot, st) and _xt(fa, t.slice, st) == ktxt for t in st.targets):
+                out += fa.nodes(st)
+    else:
+        for st in fa.stmts(ast.Delete):
+            if any(isinstance(t, ast.Subscript) and _of_slot(fa, t.value, slot, st) and _xt(fa, t.slice, st) == ktxt for t in st.targets):
+                out += fa.nodes(st)
+    return out
+
+
+def _site_covered(ck, cm, m, site, key, slot, kinds, absent_ok, depth=0):
+    """Is the event "key `key` is entered into / taken out of self.<slot>" on every path of method `m` through `site` --
+    or, for a private helper whose key is a parameter, on every path through each of its call sites in the class (two
+    levels)?  With `absent_ok` a way may miss the event on a branch edge that says the key is not in that table.
+    -> (covered, (method, node) of the uncovered site)"""
+    fa = FA(ck, m)
+    ids = fa.nodes(site)
+    if not ids:
+        return True, None
+    ktxt = _xt(fa, key, site)
+    ev = _key_events(fa, slot, ktxt, kinds)
+    edge_ok = None
+    if absent_ok:
+        edge_ok = branch_filter(fa, lambda t, p: (not p) and t == "%s in self.%s" % (ktxt, slot))
+    if every_path_through(fa, ids, ev, edge_ok=edge_ok):
+        return True, None
+    params = [p_ for p_ in m.params if p_ != "self"]
+    if depth >= 2 or ktxt not in params or not m.name.startswith("_"):
+        return False, (fa, site)
+    callers = [(o, c) for o in cm.cls.methods.values() if o is not m for c in A.body_calls(o.node) if cm.is_self_call(c, m)]
+    if not callers:
+        return False, (fa, site)
+    for (o, c) in callers:
+        arg = _bind(c, m.params).get(ktxt)
+        if arg is None:
+            return False, (FA(ck, o), c)
+        ok, w = _site_covered(ck, cm, o, c, arg, slot, kinds, absent_ok, depth + 1)
+        if not ok:
+            return False, w
+    return True, None
+
+
 def _forget_by_index(ck, R, cm, ff):
-    """forget_function selects its keys from a per-function index (a dict slot of the cache other than
-    the resident map) instead of scanning.  The selection is then only as complete as the index:
-    every site that stores a key into the resident map or the weak-reference table must enter that
-    key into the index in the same method, and the index is keyed by the function's qualified name."""
-    idx = None
+    """forget_function selects its keys from a per-function index (a dict slot of the cache other than the resident map)
+    instead of scanning.  The selection is then only as complete as the index: at all times the index holds every key of
+    the resident map AND of the weak-reference table.  Decided as two clauses over every method of the cache: (1) wherever
+    a key is stored into one of the two tables it is entered into the index on every path through the store (in the method,
+    or around every call of the private helper that stores); (2) wherever a key is taken out of the index it is taken out
+    of both tables on every path through that site (or the way there says the table does not hold it)."""
+    own = [p_ for p_ in ff.fi.params if p_ != "self"]
+    cand = [f for f in getattr(cm, "aux_maps", [])]
+    idx, sel_loop = None, None
     for loop in ff.stmts(ast.For):
-        for x in ast.walk(loop.iter):
-            f = self_attr(x)
-            if f and f not in (cm.map, cm.refs, cm.queue, cm.counter, cm.budget) and f not in cm.cls.methods:
-                idx = f
+        if not ff.nodes(loop):
+            continue
+        fields = {self_attr(x) for x in ast.walk(safe_expand(ff, loop.iter, loop)) if self_attr(x)}
+        try:
+            fields |= {d[len("attr:self."):] for d in ff.deps(loop.iter) if d.startswith("attr:self.")}
+        except AnalysisError:
+            pass
+        for f in sorted(fields):
+            if f not in (cm.map, cm.refs, cm.queue, cm.counter, cm.budget) and f not in cm.cls.methods and (not cand or f in cand):
+                idx, sel_loop = f, loop
     if idx is None:
         raise AnalysisError("MemoryCache.forget_function selects its keys neither by a startswith() scan nor from an index slot (unsupported idiom)")
-    okq = any("qualified_name" in A.norm(l.iter) and "fn_reference" in A.names_in(l.iter) for l in ff.stmts(ast.For))
+    sel = _xt(ff, sel_loop.iter, sel_loop)
+    okq = bool(own) and (own[0] + ".qualified_name") in sel
     ck.ob(R, ff.key(None, "index-keyed-by-qualified-name"), okq, "the index is looked up by fn_reference.qualified_name" if okq else
           "the per-function index is not looked up by the function's qualified name", ff.where())
     slots = [cm.map] + ([cm.refs] if cm.refs else [])
     for name, m in cm.cls.methods.items():
+        if name == "__init__":
+            continue
         fa = FA(ck, m)
-        adds = [c for c in fa.calls() if A.call_attr(c) in ("add", "append") and idx in A.attrs_in(A.call_recv(c))]
+        # (1) a key that enters a table enters the index
         for st in fa.stmts(ast.Assign):
             for t in st.targets:
-                if isinstance(t, ast.Subscript) and self_attr(t.value) in slots:
-                    k = A.norm(t.slice)
-                    hit = [c for c in adds if c.args and A.norm(c.args[0]) == k]
-                    ok = bool(hit) and all(fa.cfg.must_pass(fa.nodes_all(hit), fa.cfg.exit, start=i) or fa.cfg.must_pass(fa.nodes_all(hit), i) for i in fa.nodes(st))
-                    ck.ob(R, fa.key(st, "indexed:" + self_attr(t.value)), ok,
-                          "the key stored into %s is entered into the index %s" % (self_attr(t.value), idx) if ok else
-                          "`%s` stores a key that is not entered into the per-function index `%s`: forget_function selects from that index only, so this "
-                          "entry survives forgetting its function and the forgotten result is served again" % (A.short(st, 50), idx), fa.where(st))
-    # the loop removes from every slot
+                if isinstance(t, ast.Subscript) and self_attr(t.value) in slots and fa.nodes(st):
+                    sl = self_attr(t.value)
+                    ok, w = _site_covered(ck, cm, m, st, t.slice, idx, "add", False)
+                    (wf, wn) = w if w is not None else (fa, st)
+                    ck.ob(R, fa.key(st, "indexed:" + sl), ok,
+                          "the key stored into %s is entered into the index %s" % (sl, idx) if ok else
+                          "`%s` stores a key into self.%s that is not entered into the per-function index `%s` on every path (%s): forget_function selects "
+                          "from that index only, so this entry survives forgetting its function -- is_memoized keeps answering True and the forgotten "
+                          "result is served again" % (A.short(st, 50), sl, idx, wf.fi.name), wf.where(wn))
+        # (2) a key that leaves the index has left both tables
+        rems = [c for c in fa.calls() if A.call_attr(c) in ("discard", "remove", "pop") and c.args and fa.nodes(c) and _of_slot(fa, A.call_recv(c), idx, c)
+                and not self_attr(A.call_recv(c), idx)]
+        for c in rems:
+            for sl in slots:
+                ok, w = _site_covered(ck, cm, m, c, c.args[0], sl, "remove", True)
+                (wf, wn) = w if w is not None else (fa, c)
+                ck.ob(R, fa.key(c, "unindexed-only-when-gone:" + sl), ok,
+                      "a key leaves the index %s only when self.%s has let go of it" % (idx, sl) if ok else
+                      "`%s` takes a key out of the per-function index `%s` while self.%s may still hold it (%s): forget_function selects from the index "
+                      "only, so that entry survives forgetting its function and the forgotten result is answered for again"
+                      % (A.short(c, 50), idx, sl, wf.fi.name), wf.where(wn))
+    # the loop removes the selected keys from every slot
     for sl in slots:
         if sl == cm.map:
-            okr = bool([c for c in ff.calls(cm.evict.name) if cm.is_self_call(c, cm.evict)])
+            okr = bool([c for c in ff.calls(cm.evict.name) if cm.is_self_call(c, cm.evict)]) or bool(_table_removal_nodes(ff, sl))
         else:
-            okr = any((isinstance(n, ast.Call) and A.call_attr(n) in ("pop",) and self_attr(A.call_recv(n)) == sl)
-                      or (isinstance(n, ast.Delete) and any(isinstance(t, ast.Subscript) and self_attr(t.value) == sl for t in n.targets))
-                      for n in A.walk_body(ff.node))
+            okr = bool(_table_removal_nodes(ff, sl))
         ck.ob(R, ff.key(None, "slots:" + sl), okr, "forget_function removes the selected keys from %s" % sl if okr else
               "forget_function does not remove the selected keys from %s" % sl, ff.where())
 
